@@ -254,6 +254,58 @@ impl VisitorMut for RecMutOverride {
     }
 }
 
+/// mutable recording visitor that *rewrites the tree it is walking*: the first `block` it is shown is retargeted to another
+/// sequence; the traversal has to go on in the tree as the visitor left it (the reference walk is taken afterwards)
+pub struct RecMutRewrite {
+    pub inner: RecMut,
+    pub target: InstrSeqId,
+    pub done: bool,
+}
+impl VisitorMut for RecMutRewrite {
+    fn start_instr_seq_mut(&mut self, s: &mut InstrSeq) {
+        self.inner.start_instr_seq_mut(s)
+    }
+    fn end_instr_seq_mut(&mut self, s: &mut InstrSeq) {
+        self.inner.end_instr_seq_mut(s)
+    }
+    fn visit_instr_mut(&mut self, i: &mut Instr, l: &mut InstrLocId) {
+        if !self.done {
+            if let Instr::Block(b) = i {
+                b.seq = self.target;
+                self.done = true;
+            }
+        }
+        self.inner.visit_instr_mut(i, l)
+    }
+    fn visit_instr_seq_id_mut(&mut self, x: &mut InstrSeqId) {
+        self.inner.log.id("seq", x.index());
+    }
+    fn visit_local_id_mut(&mut self, x: &mut LocalId) {
+        self.inner.log.id("local", x.index());
+    }
+    fn visit_memory_id_mut(&mut self, x: &mut MemoryId) {
+        self.inner.log.id("memory", x.index());
+    }
+    fn visit_table_id_mut(&mut self, x: &mut TableId) {
+        self.inner.log.id("table", x.index());
+    }
+    fn visit_global_id_mut(&mut self, x: &mut GlobalId) {
+        self.inner.log.id("global", x.index());
+    }
+    fn visit_function_id_mut(&mut self, x: &mut FunctionId) {
+        self.inner.log.id("func", x.index());
+    }
+    fn visit_data_id_mut(&mut self, x: &mut DataId) {
+        self.inner.log.id("data", x.index());
+    }
+    fn visit_type_id_mut(&mut self, x: &mut TypeId) {
+        self.inner.log.id("type", x.index());
+    }
+    fn visit_element_id_mut(&mut self, x: &mut ElementId) {
+        self.inner.log.id("elem", x.index());
+    }
+}
+
 /// immutable recording visitor that also overrides some per-instruction hooks (without re-visiting): the id hooks of
 /// those instructions' operands must fire all the same
 #[derive(Default)]
@@ -389,6 +441,23 @@ pub fn cases_of(id: &str, source: &str, m: &mut Module) -> Vec<Json> {
                 let mut v = RecMut::default();
                 dfs_pre_order_mut(&mut v, lf, sid);
                 out.push(json!({"id": format!("{}~pre_order_mut@{}", base, start), "source": source, "flavour": "pre_order_mut", "tree": sub, "log": v.log.finish()}));
+            }
+        }
+        // last (it changes the function): a visitor that retargets the first block it is shown to a fresh sequence; the log is
+        // judged against the tree as it is after the traversal
+        {
+            let lf = m.funcs.get_mut(fid).kind.unwrap_local_mut();
+            let target = {
+                let mut b = lf.builder_mut().dangling_instr_seq(InstrSeqType::Simple(None));
+                b.i32_const(7).drop();
+                b.id()
+            };
+            let e = lf.entry_block();
+            let mut v = RecMutRewrite { inner: RecMut::default(), target, done: false };
+            dfs_pre_order_mut(&mut v, lf, e);
+            if v.done {
+                let after = tree_of(lf);
+                out.push(json!({"id": format!("{}~pre_order_mut_rewriting", base), "source": source, "flavour": "pre_order_mut", "tree": after, "log": v.inner.log.finish()}));
             }
         }
     }
